@@ -27,7 +27,7 @@ import sys
 
 HERE = os.path.dirname(os.path.abspath(__file__))
 FILES = os.path.join(HERE, "files")
-REPO = sys.argv[1] if len(sys.argv) > 1 else "/repo"
+REPO = sys.argv[1] if len(sys.argv) > 1 and sys.argv[1] != "textfamily" else "/repo"
 MAXENT = 48  # at most this many entries of a long table are described (first MAXENT-4 and the last 4)
 
 
@@ -492,7 +492,59 @@ def describe(name, src, path):
             "truth_by": ev, "kind": kind, "regions": regs}
 
 
+def text_family():
+    """Append (only) the generated HEX / S-record size family to bases.ndjson:  build.py /repo textfamily
+
+    COFF has no magic number and is tried before HEX and SREC; what keeps it from claiming a text file is the
+    failure of some 40-byte section header it reads from offset 20 + f_opthdr on (f_opthdr = the characters 16-17
+    of the text, '00' = 12336 here).  Whether a lenient COFF parser swallows a valid text file therefore depends
+    on (size - 20 - f_opthdr) mod 40.  The family has one valid file of each format for every residue, just
+    above 20 + 12336 + 40 bytes.  Only the recipe, the sha256 and the reference truth are vendored; the bytes are
+    rebuilt by harness/c20.py:gen_text.  These bases are run undamaged only (intact_only)."""
+    sys.path.insert(0, os.path.dirname(os.path.dirname(HERE)))
+    from harness.c20 import gen_text
+    path = os.path.join(HERE, "bases.ndjson")
+    bases = [json.loads(l) for l in open(path)]
+    bases = [b for b in bases if not b["src"].startswith("gen:")]
+    tmp = os.path.join(HERE, ".family.tmp")
+    added = []
+    for fmt in ("HEX", "SREC"):
+        want = set(range(40))
+        cands = []
+        for nl in range(270, 330):
+            for k in range(1, 17):
+                for eol in ("lf", "crlf"):
+                    t = gen_text(fmt, nl, k, eol)
+                    opthdr = int.from_bytes(t[16:18], "little")
+                    if opthdr == 0x3030 and len(t) > 20 + opthdr + 40:
+                        cands.append((len(t), nl, k, eol, (len(t) - 20 - opthdr) % 40))
+        for size, nl, k, eol, r in sorted(cands):
+            if r in want:
+                want.discard(r)
+                t = gen_text(fmt, nl, k, eol)
+                open(tmp, "wb").write(t)
+                truth, ev = reference_truth(tmp)
+                assert truth == fmt, (fmt, nl, k, eol, truth, ev)
+                added.append({"name": "gen/%s_r%02d_%d" % (fmt.lower(), r, size), "src": "gen:%s:%d:%d:%s" % (fmt, nl, k, eol),
+                              "sha256": hashlib.sha256(t).hexdigest(), "len": size, "truth": truth, "truth_by": ev,
+                              "kind": "text", "regions": [], "intact_only": 1})
+        assert not want, (fmt, want)
+    os.unlink(tmp)
+    bases += added
+    with open(path, "w") as fo:
+        for i, b in enumerate(bases):
+            b["id"] = i + 1
+            fo.write(json.dumps(b, separators=(",", ":")) + "\n")
+    with open(os.path.join(HERE, "truth.txt"), "w") as fo:
+        for b in bases:
+            fo.write("%-40s %-6s %7d  %d regions  %s\n" % (b["name"], b["truth"], b["len"], len(b["regions"]),
+                                                          b["truth_by"]))
+    print("%d generated bases appended (%d bases in all)" % (len(added), len(bases)))
+
+
 def main():
+    if "textfamily" in sys.argv:
+        return text_family()
     build_synthetic()
     bases = []
     sdir = os.path.join(REPO, "tests", "samples")
